@@ -154,6 +154,19 @@ def run_getitem_sequence(repo, qual):
     log["generations"] = [g1, g2, count["n"] - (g3 - g2)]
     log["both_present"] = keyA in cache and keyB in cache and keyP in cache
     log["cache_size_after_other"] = len(cache) - 1
+    # 5: the blades of key A in ANOTHER storage order: a different key pattern (the generated function unpacks its operands by position)
+    keyR = (tuple(reversed(KEY0)), KEY1) if n == 2 else tuple(reversed(KEY0))
+    g4 = count["n"]
+    out5 = it.run(qual, [me, keyR])
+    log["reordered_key"] = keyR
+    if out5[0] == "raise":
+        log["reordered"] = f"raises {out5[1]}"
+    elif out5[1] is cache.get(keyA):
+        log["reordered"] = "answered with the entry of the other order"
+    elif count["n"] != g4 + 1:
+        log["reordered"] = f"{count['n'] - g4} generations"
+    else:
+        log["reordered"] = "ok"
     return log
 
 
